@@ -4,6 +4,15 @@ import json, os, sys
 ROOT = os.path.dirname(os.path.dirname(os.path.abspath(__file__)))
 sys.path.insert(0, os.path.join(ROOT, "tools"))
 import manifest_data as md
+import subprocess
+
+def hook_commits():
+    """commits in /repo whose message starts with `verif hook` (oldest first)"""
+    try:
+        out = subprocess.run(["git", "-C", "/repo", "log", "--reverse", "--format=%h %s"], stdout=subprocess.PIPE, timeout=60).stdout.decode()
+        return [l.split()[0] for l in out.splitlines() if l.split(" ", 1)[1].startswith("verif hook")]
+    except Exception:
+        return md.HOOK_COMMITS
 
 checks = []
 for pid in sorted(md.CLAIMED):
@@ -26,7 +35,7 @@ m = {
         "guard": "aws_s2n_quic_verif",
         "enable": "RUSTFLAGS=\"--cfg aws_s2n_quic_verif\" (set in /verif/harness/.cargo/config.toml; the harness crates depend on /repo's crates by path)",
         "baseline_off_cmd": "cd /repo && cargo nextest run --workspace --no-fail-fast --tool-config-file pb:/w/lib/nextest.toml --profile pb --test-threads 8 --offline",
-        "source_commits": md.HOOK_COMMITS,
+        "source_commits": hook_commits() or md.HOOK_COMMITS,
         "add_only": True,
     },
     "engines": [{
